@@ -26,10 +26,11 @@ class Ev:
 
 
 class Staff:
-    def __init__(self, n, clef=("G", 2), key=0, meter=(4, 4), measures=(), meter_changes=None):
+    def __init__(self, n, clef=("G", 2), key=0, meter=(4, 4), measures=(), meter_changes=None, key_changes=None):
         self.n, self.clef, self.key, self.meter = n, clef, key, meter
         self.measures = [list(m) for m in measures]   # measure -> list of layers -> list of Ev
         self.meter_changes = meter_changes or {}      # measure index -> (count, unit)
+        self.key_changes = key_changes or {}          # measure index -> fifths (of the first staff: a key change applies to the whole score)
 
 
 class Doc:
@@ -128,8 +129,13 @@ def to_mei(doc, with_ppq=False, attrs_as_children=True, ppq=None):
     open_tie = {}
     for i in range(nmeas):
         mc = doc.staves[0].meter_changes.get(i)
-        if mc:
-            lines.append('<scoreDef xml:id="%s" meter.count="%d" meter.unit="%d"/>' % (nid("sdc"), mc[0], mc[1]))
+        kc = doc.staves[0].key_changes.get(i)
+        if mc or kc is not None:
+            if attrs_as_children:
+                lines.append('<scoreDef xml:id="%s">%s%s</scoreDef>' % (nid("sdc"), ('<keySig xml:id="%s" sig="%s"/>' % (nid("ksc"), _sig(kc))) if kc is not None else "",
+                                                                      ('<meterSig xml:id="%s" count="%d" unit="%d"/>' % (nid("msc"), mc[0], mc[1])) if mc else ""))
+            else:
+                lines.append('<scoreDef xml:id="%s"%s%s/>' % (nid("sdc"), (' meter.count="%d" meter.unit="%d"' % mc) if mc else "", (' key.sig="%s"' % _sig(kc)) if kc is not None else ""))
         name = doc.names[i] if doc.names else str(i + 1)
         lines.append('<measure xml:id="%s" n="%s">' % (nid("m"), name))
         tie_els = []
@@ -259,6 +265,9 @@ def to_kern(doc, same_part=False):
         mc = doc.staves[0].meter_changes.get(i)
         name = doc.names[i] if doc.names else str(i + 1)
         rows.append(["=%s" % name] * len(staves))
+        kc = doc.staves[0].key_changes.get(i)
+        if kc is not None:
+            rows.append(["*k[%s]" % KERN_KEYS[kc]] * len(staves))
         if mc:
             rows.append(["*M%d/%d" % mc] * len(staves))
         # time-aligned rows
@@ -336,6 +345,9 @@ def catalogue(tier="quick"):
     out.append(("meter_change", Doc([Staff(1, measures=[[[N("C", 4, 1)]], [[N("D", 4, 2, 1)]], [[N("E", 4, 2, 1)]]], meter_changes={1: (3, 4)})]), both))
     out.append(("octaves_and_accidentals", Doc([Staff(1, measures=[[[N("C", 2, 4, alter=1), N("B", 5, 4, alter=-1), N("F", 6, 4, alter=2), N("E", 1, 4, alter=-2)]],
                                                                     [[N("A", 3, 4, alter=0), N("G", 4, 4), R(2)]]])]), both))
+    out.append(("meter_and_key_change_at_one_barline", Doc([Staff(1, key=0, measures=[[[N("C", 4, 1)]], [[N("D", 4, 2, 1)]], [[N("F", 4, 2, 1, alter=1)]], [[N("E", 4, 4), N("B", 4, 4, alter=-1)]]],
+                                                                 meter_changes={1: (3, 4), 3: (2, 4)}, key_changes={1: 4, 2: -1, 3: -3}),
+                                                           Staff(2, clef=("F", 4), key=0, measures=[[[N("C", 3, 1)]], [[N("D", 3, 2, 1)]], [[N("F", 3, 2, 1)]], [[N("E", 3, 2)]]])]), both))
     out.append(("twelve_eight", Doc([Staff(1, meter=(12, 8), measures=[[[N("C", 4, 4, 1), N("D", 4, 4, 1), N("E", 4, 2, 1)]], [[N("G", 4, 1, 1)]]])]), both))
     out.append(("three_sixteen_then_twelve_sixteen", Doc([Staff(1, meter=(3, 16), measures=[[[N("C", 4, 8, 1)]], [[N("D", 4, 2, 1)]], [[N("E", 4, 4, 1), N("F", 4, 4, 1)]]], meter_changes={1: (12, 16)})]), both))
     out.append(("compound_6_8", Doc([Staff(1, meter=(6, 8), measures=[[[N("C", 4, 4, 1), N("D", 4, 8), N("E", 4, 8), N("F", 4, 8)]], [[N("G", 4, 2, 1)]]])]), both))
